@@ -14,7 +14,7 @@ def stepQ (fs : List String) : Option String := do
   let e ← ruleEnginesOf cs
   let m := handle e cs.conf cs.up cs.q
   let mOut := renderOutcome m
-  let shown := classOf cs.conf m ++ "\t" ++ mOut
+  let shown := classOfQ cs.conf cs.q m ++ "\t" ++ mOut
   if impl.head? == some "PANIC" then
     pure (verdict false (some "impl-panic") shown)
   else if isHang impl then
@@ -48,7 +48,7 @@ def stepRQ (b : Block) (fs : List String) : Option String := do
     let q : Query := { name := ← hexDecode qn, qtype := ← qt.toNat? }
     let m := handle b.e b.cs.conf b.cs.up q
     let mOut := renderOutcome m
-    let shown := "reload:" ++ classOf b.cs.conf m ++ "\t" ++ mOut
+    let shown := "reload:" ++ classOfQ b.cs.conf q m ++ "\t" ++ mOut
     if impl.head? == some "PANIC" then pure (verdict false (some "impl-panic") shown)
     else
       let (obs, _) ← outcomesP.run impl
